@@ -97,7 +97,7 @@ fn shim_max(a: usize, b: usize) -> (r: usize) ensures r == if a >= b { a } else 
     U.emit(m)
 
     po = U.impl('main/src/position.rs', "impl<'i> Position<'i>", r1=False).drop_attrs()
-    po.keep_methods(['new_unchecked', 'new', 'from_start', 'pos', 'span'])
+    po.keep_methods(['new_unchecked', 'new', 'from_start', 'pos', 'span', 'at_start', 'at_end'])
     po.rw('R7', 'debug_assert!(input.get(pos..).is_some());\n', '')
     po.rw('R2', 'pub(crate) unsafe fn new_unchecked', 'pub unsafe fn new_unchecked')
     po.rw('R3', 'ptr::eq(self.input, other.input)', 'shim_ptr_eq(self.input, other.input)')
@@ -113,6 +113,9 @@ fn shim_max(a: usize, b: usize) -> (r: usize) ensures r == if a >= b { a } else 
                 r is Some ==> (r->0).input == input && (r->0).pos == pos,''', fname='new')
     po.ret('r', fname='from_start'); po.contract('        ensures r.input == input, r.pos == 0,', fname='from_start')
     po.ret('r', fname='pos'); po.contract('        ensures r == self.pos,', fname='pos')
+    po.ret('r', fname='at_start'); po.contract('        ensures r == (self.pos == 0),', fname='at_start')
+    po.ret('r', fname='at_end'); po.contract('        ensures r == (self.pos == self.input.spec_bytes().len()),', fname='at_end')
+    po.body_start('        proof { lemma_str_valid(self.input); }', fname='at_end')
     po.ret('r', fname='span')
     po.contract('''        requires self.input == other.input, self.pos <= other.pos, other.pos <= self.input.spec_bytes().len(),
                  is_char_boundary(self.input.spec_bytes(), self.pos as int), is_char_boundary(self.input.spec_bytes(), other.pos as int),
